@@ -33,6 +33,17 @@ Oracle decisions (weaker reading where the statement is silent or ambiguous):
 * Timestamps whose UTC equivalent is outside years 1..9999 are not enumerated (not representable).
 * A rejected assignment must leave the 15 *readings* unchanged (the XML is not compared).
 
+* two    — two packages handled in ONE process by one `_exec` call (no fork in between), preceded by a
+  primer P0 (a no-core deck that gains a default part on which all 15 properties are set, so that the
+  case is self-contained and replays identically in a fresh process): open A, assign batch A; open B:
+  B's fresh readings must be the documented defaults of CorePropertiesPart.default (title 'PowerPoint
+  Presentation', last_modified_by 'python-pptx', revision 1, modified = the harness's fixed clock, the
+  rest ''/None) when B has no core part, else what the same file reads when opened before anything else;
+  A's readings must not move when B is opened nor when B is assigned; B's must not move when A is
+  assigned again; both are saved and re-opened. Modes: `overlap` (A alive while B is used) and
+  `sequential` (A saved and dropped before B is opened, A re-opened at the end). Bases x bases x modes
+  x batch A x batch B, all combinations.
+
 Deviations from DESIGN: the "part c14n-unchanged after ValueError" demand is weakened to "readings
 unchanged" (the statement only says ValueError is raised); an extra BMP class of XML characters
 (U+0085, U+2028, U+D7FF, U+E000, U+FFFD, NBSP) and a corpus sweep were added; thorough enumerates every
@@ -67,7 +78,8 @@ RULE = ("assign: base package (default template, minimal.pptx, no-core-props.ppt
         "read-back of all 15 properties against a dict model + 2 save/re-open cycles with schema validation of "
         "docProps/core.xml. years: 3 date properties x every year 1..9999. read: every W3CDTF granularity x "
         "{Z, -14:00..+14:00 step 15 min, -00:00} x base instants x fraction forms, loaded through the library. "
-        "corpus: every repository deck. Non-trivial = distinct (kind, property, concrete value / text / deck); "
+        "corpus: every repository deck. two: 4 bases x 4 bases x {overlap, sequential} x batch A x batch B in one "
+        "process (fresh default part reads the documented defaults; no cross-package interference). Non-trivial = distinct (kind, property, concrete value / text / deck); "
         "length-0 strings of different classes coincide and count once.")
 ASSUMPTIONS = [
     "trusted base: stub schemas /verif/schemas/dc.xsd, dcterms.xsd, xml.xsd stand in for the Dublin Core and xml.xsd "
@@ -81,7 +93,10 @@ ASSUMPTIONS = [
     "are outside the claim; read cases whose UTC equivalent is not representable are skipped",
     "offsets -14:00..+14:00 in 15-minute steps (plus -00:00), not every minute",
     "XML line-end normalisation of CR after save/re-open is tolerated (and only that)",
-    "histories are bounded to 2 assignments and 2 save/re-open cycles",
+    "histories are bounded to 2 assignments and 2 save/re-open cycles (quick-tier ordered pairs: 1 cycle); "
+    "two-packages histories: primer + 2 packages, fixed assignment batches",
+    "the documented defaults of a default core-properties part (CorePropertiesPart.default docstring/body: title, "
+    "last_modified_by, revision 1, modified = now) are taken as the meaning of 'gains a default part'",
 ]
 
 STRING_PROPS = ["author", "category", "comments", "content_status", "identifier", "keywords", "language",
@@ -454,7 +469,13 @@ def _exec_assign(case, rec):
     if again != model:
         rec.v("C18|read-unstable", "two consecutive readings differ: %r" % ({p: (model[p], again[p]) for p in ALL_PROPS if model[p] != again[p]},))
     last_label = {}
-    for prop, spec in case["ops"]:
+    _apply_ops(rec, cp, model, case["ops"], last_label)
+    _cycles(rec, prs, model, last_label, frozenset(), base in NOCORE_BASES, ncycles=case.get("cycles", 2))
+
+
+def _apply_ops(rec, cp, model, ops, last_label, after_each=None):
+    """Apply assignments to `cp`, checking outcome + all 15 readings against `model` (updated in place)."""
+    for prop, spec in ops:
         value = make_value(spec)
         label = spec["label"]
         exp = expected_outcome(prop, value)
@@ -490,7 +511,174 @@ def _exec_assign(case, rec):
                 rec.v("C18|interfere|%s|%s" % (prop, q),
                       "assigning %s = %s changed %s from %s to %s" % (prop, short(value), q, short(model[q]), short(now[q])))
                 model[q] = now[q]
-    _cycles(rec, prs, model, last_label, frozenset(), base in NOCORE_BASES)
+        if after_each is not None:
+            after_each(prop, value)
+
+
+# ---- two packages in one process ---------------------------------------------------------------------
+
+def _clock_installed():
+    try:
+        import pptx.parts.coreprops as m
+        return getattr(getattr(m, "dt", None), "__name__", "") == "dt_shim"
+    except Exception:  # noqa
+        return False
+
+
+def documented_defaults():
+    """Readings of a default core-properties part per CorePropertiesPart.default's documentation."""
+    from mc.core import clock
+    exp = {p: "" for p in STRING_PROPS}
+    exp.update({"created": None, "last_printed": None, "revision": 1,
+                "title": "PowerPoint Presentation", "last_modified_by": "python-pptx",
+                "modified": clock.FIXED.replace(tzinfo=None) if _clock_installed() else "ANY-DATETIME"})
+    return exp
+
+
+def _diff(expected, got):
+    out = []
+    for p in ALL_PROPS:
+        e, g = expected[p], got[p]
+        if e == "ANY-DATETIME":
+            if isinstance(g, dt.datetime):
+                continue
+        elif type(e) is type(g) and e == g:
+            continue
+        out.append("%s: expected %s, reads %s" % (p, short(e, 40), short(g, 40)))
+    return out
+
+
+def _kind_of(base):
+    return "nocore" if base in NOCORE_BASES else "core"
+
+
+def _exec_two(case, rec):
+    """Two packages handled one after the other in THIS process (no fork in between): package B's
+    core properties are independent of what was done to package A, and vice versa."""
+    from pptx import Presentation
+    a, b, mode = case["a"], case["b"], case["mode"]
+    tag = "a=%s|b=%s|%s" % (_kind_of(a), _kind_of(b), mode)
+    # reference for B's fresh readings: documented defaults, or (deck with a core part) the readings of
+    # the same bytes opened before anything was done to A
+    if b in NOCORE_BASES:
+        ref_b = documented_defaults()
+    else:
+        ref_b = read_all(Presentation(io.BytesIO(base_bytes(b))).core_properties)
+
+    # primer: the case's own history starts with a no-core deck P0 that gains a default part and has every
+    # property assigned. This makes the case self-contained (a replay in a fresh process sees the same
+    # history as the explorer's worker): at least two default parts are created whenever A or B lacks one.
+    prs_0 = Presentation(io.BytesIO(base_bytes("minimal-nocore")))
+    cp_0 = prs_0.core_properties
+    for p in STRING_PROPS:
+        setattr(cp_0, p, "primer-" + p)
+    for p in DATE_PROPS:
+        setattr(cp_0, p, dt.datetime(2001, 2, 3, 4, 5, 6))
+    cp_0.revision = 99
+
+    prs_a = Presentation(io.BytesIO(base_bytes(a)))
+    cp_a = prs_a.core_properties
+    model_a = read_all(cp_a)
+    if a in NOCORE_BASES:
+        d = _diff(documented_defaults(), model_a)
+        if d:
+            rec.v("C18|two|fresh-part-not-default|%s" % tag,
+                  "after every property was set on the default part of no-core package P0, the default part gained by "
+                  "package A (%s) does not read the documented defaults: %s" % (a, "; ".join(d)))
+    last_a = {}
+    _apply_ops(rec, cp_a, model_a, case["opsA"], last_a)
+    saved_a = None
+    if mode == "sequential":
+        buf = io.BytesIO()
+        prs_a.save(buf)
+        saved_a = buf.getvalue()
+        cp_a = prs_a = None
+
+    def a_unchanged(rule, why):
+        if cp_a is None:
+            return
+        d = _diff(model_a, read_all(cp_a))
+        if d:
+            rec.v("C18|two|%s|%s" % (rule, tag), "package A (%s) changed when %s: %s" % (a, why, "; ".join(d)))
+            model_a.update(read_all(cp_a))
+
+    prs_b = Presentation(io.BytesIO(base_bytes(b)))
+    cp_b = prs_b.core_properties
+    model_b = read_all(cp_b)
+    d = _diff(ref_b, model_b)
+    rec.o("two:fresh-part", "as-expected" if not d else "differs")
+    if d:
+        rule = "fresh-part-not-default" if b in NOCORE_BASES else "fresh-part-differs"
+        rec.v("C18|two|%s|%s" % (rule, tag),
+              "after %s on package A (%s), the core properties of freshly opened package B (%s) are not %s: %s" % (
+                  ["%s=%s" % (p, short(make_value(sp), 30)) for p, sp in case["opsA"]], a, b,
+                  "the documented defaults" if b in NOCORE_BASES else "what the same file reads when opened alone",
+                  "; ".join(d)))
+    a_unchanged("A-changed-by-B-open", "package B (%s) was opened and its core properties accessed" % b)
+    last_b = {}
+    _apply_ops(rec, cp_b, model_b, case["opsB"], last_b,
+               after_each=lambda prop, value: a_unchanged("A-changed-by-B-set", "B.%s = %s" % (prop, short(value, 30))))
+    if cp_a is not None:
+        def b_unchanged(prop, value):
+            d2 = _diff(model_b, read_all(cp_b))
+            if d2:
+                rec.v("C18|two|B-changed-by-A-set|%s" % tag, "package B (%s) changed when A.%s = %s: %s" % (
+                    b, prop, short(value, 30), "; ".join(d2)))
+                model_b.update(read_all(cp_b))
+        _apply_ops(rec, cp_a, model_a, [["subject", {"t": "raw", "v": "second round on A", "label": "ascii"}]], last_a,
+                   after_each=b_unchanged)
+        _cycles(rec, prs_a, model_a, last_a, frozenset(), a in NOCORE_BASES, ncycles=1)
+    else:
+        got = read_all(Presentation(io.BytesIO(saved_a)).core_properties)
+        d = _diff(model_a, got)
+        if d:
+            rec.v("C18|two|A-saved-differs|%s" % tag, "package A (%s) saved before B was opened re-opens as: %s" % (a, "; ".join(d)))
+    _cycles(rec, prs_b, model_b, last_b, frozenset(), b in NOCORE_BASES, ncycles=1)
+    del prs_0
+
+
+def _raw(v, label="ascii"):
+    return {"t": "raw", "v": v, "label": label}
+
+
+TWO_BATCHES = {
+    "none": [],
+    "S": [["title", _raw("Deck one")], ["author", _raw("Alice")], ["revision", {"t": "int", "v": 7, "label": "7"}],
+          ["created", d_spec("first-second+1", (2020, 2, 29, 12, 0, 1))]],
+    "T": [["title", _raw("Deck two")], ["keywords", _raw("k1; k2")], ["last_printed", d_spec("epoch", (1970, 1, 1, 0, 0, 0))],
+          ["revision", {"t": "int", "v": 2 ** 31, "label": "2**31"}], ["modified", d_spec("y2038", (2038, 1, 19, 3, 14, 8))]],
+}
+TWO_BASES = ("minimal-nocore", "nocore", "minimal", "default")
+TWO_MODES = ("overlap", "sequential")
+
+
+def two_single_batches():
+    """thorough: one batch per property (a single valid assignment)."""
+    out = {}
+    for p in STRING_PROPS:
+        out["only-" + p] = [[p, s_spec("markup", 5)]]
+    for p in DATE_PROPS:
+        out["only-" + p] = [[p, d_spec("last-second", (2020, 2, 29, 23, 59, 59))]]
+    out["only-revision"] = [["revision", {"t": "int", "v": 2, "label": "2"}]]
+    return out
+
+
+def two_cases(thorough):
+    batches_a = dict(TWO_BATCHES)
+    if thorough:
+        batches_a.update(two_single_batches())
+    cases = []
+    for a in TWO_BASES:
+        for b in TWO_BASES:
+            for mode in TWO_MODES:
+                for na in batches_a:
+                    for nb in TWO_BATCHES:
+                        cases.append({"kind": "two", "a": a, "b": b, "mode": mode, "batchA": na, "batchB": nb,
+                                      "opsA": batches_a[na], "opsB": TWO_BATCHES[nb]})
+    exp = len(TWO_BASES) ** 2 * len(TWO_MODES) * (3 + (15 if thorough else 0)) * 3
+    if len(cases) != exp:
+        raise HarnessError("two-packages generator size %d != closed form %d" % (len(cases), exp))
+    return cases
 
 
 def _year_instant(y):
@@ -648,6 +836,8 @@ def _exec(case, rec):
         return _exec_read(case, rec)
     if k == "corpus":
         return _exec_corpus(case, rec)
+    if k == "two":
+        return _exec_two(case, rec)
     raise ValueError(k)
 
 
@@ -723,7 +913,8 @@ def assign_cases(thorough):
     for base in pair_bases:
         for a in red:
             for b in red:
-                cases.append({"kind": "assign", "base": base, "ops": [[a[0], a[1]], [b[0], b[1]]]})
+                cases.append({"kind": "assign", "base": base, "ops": [[a[0], a[1]], [b[0], b[1]]],
+                              "cycles": 2 if thorough else 1})
     nl = len(lengths)
     exp_single = (len(STRING_PROPS) * (len(CLASS_ORDER) * (nl + (2 * len(BOUNDARY_LENGTHS) if thorough else 0)) + len(NONSTR_FOR_STRING))
                   + 2 * (len(DATE_PROPS) * len(DATE_VALUES) + len(REVISION_VALUES) + 1))
@@ -763,6 +954,8 @@ def _nontrivial_key(case):
         return ("read", case["text"])
     if k == "corpus":
         return ("corpus", case["deck"])
+    if k == "two":
+        return ("two", case["a"], case["b"], case["mode"], case["batchA"], case["batchB"])
     return ("years", case["prop"], case["lo"])
 
 
@@ -809,19 +1002,22 @@ def run(ctx):
         raise HarnessError("read generator size %d + %d skipped != closed form %d" % (len(r_cases), r_skipped, r_full))
     y_cases = year_cases()
     c_cases = corpus_cases()
-    cases = ctx.rotate(a_cases + r_cases + y_cases + c_cases)
+    t_cases = two_cases(ctx.thorough)
+    cases = ctx.rotate(a_cases + r_cases + y_cases + c_cases + t_cases)
 
     fanout(ctx, _worker, cases, chunk_size=max(1, len(cases) // 256))
 
-    exp_eval = len(a_cases) + len(r_cases) + 3 * 9999 + len(c_cases)
+    exp_eval = len(a_cases) + len(r_cases) + 3 * 9999 + len(c_cases) + len(t_cases)
     if ctx.counters.get("evaluations", 0) != exp_eval:
         raise HarnessError("evaluations %d != closed form %d" % (ctx.counters.get("evaluations", 0), exp_eval))
     ctx.extra.update({
         "single_assignment_cases": n_single, "ordered_pair_cases": n_pairs,
         "w3cdtf_read_cases": len(r_cases), "w3cdtf_read_cases_skipped_not_representable": r_skipped,
         "tzd_alphabet": len(tzds()), "year_assignments": 3 * 9999, "corpus_decks": len(c_cases),
+        "two_package_cases": len(t_cases), "fixed_clock_installed": _clock_installed(),
         "string_lengths": "0..256" if ctx.thorough else BOUNDARY_LENGTHS,
-        "save_reopen_cycles_per_case": 2,
+        "save_reopen_cycles_per_case": "2 (single assignments, corpus; pairs in thorough); 1 (pairs in quick; each "
+                                       "package of a two-packages case)",
     })
     ctx.sample({"kind": "assign", "ops": [["title", "markup x 255"]], "value": gen_string("markup", 255)[:40] + "..."})
     ctx.sample(a_cases[-1])
